@@ -115,6 +115,7 @@ Inductive call :=
 | CGetTags (s : sid) (k : term)
 | CGetBulk (s : sid) (ks : list term)
 | CQuery (s : sid) (name : term) (value : option term)      (* expression "name" or "name:value" *)
+| CQuerySort (s : sid) (name : term) (value : option term) (sort : term)   (* ... with a sort option naming a tag *)
 | CDelete (s : sid) (k : term)
 | CBatch (s : sid) (ops : list uop)
 | CFlush (s : sid)
@@ -132,6 +133,7 @@ Definition call_terms (c : call) : list term :=
   | CGet _ k | CGetTags _ k | CDelete _ k => [k]
   | CGetBulk _ ks => ks
   | CQuery _ n v => n :: opt_terms v
+  | CQuerySort _ n v t => n :: opt_terms v ++ [t]
   | CBatch _ ops => flat_map uop_terms ops
   end.
 Definition log_terms (l : list call) : list term := flat_map call_terms l.
@@ -373,6 +375,7 @@ Definition st0 : st := {| s_main := []; s_cfg := []; s_cfgopen := false; s_nx :=
 
 Inductive xop :=
 | XS (o : op)                      (* a call on the store handle *)
+| XQuerySort (q : list crit) (sort : N)   (* Query(expression, WithPageSize, WithSortOrder({Descending, TagName})) *)
 | XSetCfg (names : list N)         (* Provider.SetStoreConfig(name, {TagNames}) *)
 | XGetCfg.                         (* Provider.GetStoreConfig(name); result as OTags [(name, 0); ...] *)
 
@@ -415,7 +418,14 @@ Definition fs_get_cfg (c : fcfg) (s : st) : N * out * list call :=
   | _ => (nx1, OErr, l)
   end.
 
-Definition xstep (c : fcfg) (s : st) (o : xop) : st * out * list call :=
+(* the code as found handed the caller's query options to the underlying store unchanged (AsIs); the fix: commit
+   formats the tag name of the sort option (Fixed) *)
+Inductive variant := AsIs | Fixed.
+Definition add_sort (t : term) (x : call) : call := match x with CQuery i n v => CQuerySort i n v t | _ => x end.
+Definition sort_term (v : variant) (c : fcfg) (n : N) : term :=
+  match v with AsIs => tname n | Fixed => mac64 c (tname n) end.
+
+Definition xstep (v : variant) (c : fcfg) (s : st) (o : xop) : st * out * list call :=
   let on_main (r : ustore * N * out * list call) : st * out * list call :=
       let '(m, nx, x, l) := r in
       ({| s_main := m; s_cfg := s_cfg s; s_cfgopen := s_cfgopen s; s_nx := nx |}, x, l) in
@@ -438,6 +448,12 @@ Definition xstep (c : fcfg) (s : st) (o : xop) : st * out * list call :=
   | XS Reopen =>
       (* formatStore.Close closes the underlying store (the in-memory provider drops it), OpenStore opens it again *)
       ({| s_main := []; s_cfg := s_cfg s; s_cfgopen := s_cfgopen s; s_nx := s_nx s |}, ODone, [CClose 0; COpen 0])
+  | XQuerySort q sn =>
+      (* the in-memory provider refuses sort options: the call is made, the result is an error *)
+      if is_nil q then (s, OErr, []) else
+      let '(nx, _, l) := fs_query c 0 (s_main s) (s_nx s) (split_colon (expr_toks q) []) in
+      ({| s_main := s_main s; s_cfg := s_cfg s; s_cfgopen := s_cfgopen s; s_nx := nx |}, OErr,
+       map (add_sort (sort_term v c sn)) l)
   | XSetCfg names =>
       if existsb colon_name names then (s, OErr, []) else
       let tags := map (fun n => (tname n, lit_empty)) names ++ (if f_det c then [] else [(lit_keytag, lit_empty)]) in
@@ -450,11 +466,11 @@ Definition xstep (c : fcfg) (s : st) (o : xop) : st * out * list call :=
       ({| s_main := s_main s; s_cfg := s_cfg s; s_cfgopen := true; s_nx := nx1 |}, x, open_cfg s ++ l)
   end.
 
-Fixpoint xrun (c : fcfg) (s : st) (ops : list xop) : st * list (out * list call) :=
+Fixpoint xrun (v : variant) (c : fcfg) (s : st) (ops : list xop) : st * list (out * list call) :=
   match ops with
   | [] => (s, [])
-  | o :: r => let '(s1, x, l) := xstep c s o in let '(s2, rest) := xrun c s1 r in (s2, (x, l) :: rest)
+  | o :: r => let '(s1, x, l) := xstep v c s o in let '(s2, rest) := xrun v c s1 r in (s2, (x, l) :: rest)
   end.
 (* the provider's view of a whole history (the harness opens the application's store first) *)
-Definition xlog (c : fcfg) (ops : list xop) : list call :=
-  COpen 0 :: flat_map snd (snd (xrun c st0 ops)).
+Definition xlog (v : variant) (c : fcfg) (ops : list xop) : list call :=
+  COpen 0 :: flat_map snd (snd (xrun v c st0 ops)).
